@@ -37,6 +37,10 @@ CONSTANTS Starts,       \* set of subsets of {"a","b"}: who has put the query me
           Questions,    \* subset of {0,1}: SMP started without / with a question
           AllowEnd,     \* may a user call End (once in total)
           MaxRequery,   \* query messages a user may send again while encrypted (re-keying), in total
+          SeqSMP,       \* TRUE: a user starts an SMP run only when the network is quiet (sequential runs; crossing runs excluded)
+          FixSMPReset,  \* FALSE: the code as it is (after a FAILED run the SMP state and secret are kept: state 3 at the responder
+                        \* until the abort arrives, state 4 at the initiator for good); TRUE: the proposed repair fixes/C47-smp-reset-
+                        \* after-failure.diff (processSMP resets on smpFailureError) -- used to show the repair satisfies RunOutcome
           FixCommitState \* TRUE: the code since otr b85d235 (AwaitingRevealSig entered only after the D-H commit parsed);
                          \* FALSE only in OTR_DocCommitState.cfg, whose counterexample (a state without a D-H key) TLC must find
 
@@ -48,13 +52,13 @@ VARIABLES cv,      \* cv[p]: the Conversation object of p
           net,     \* net[p]: wire messages in flight to p (in order)
           hi,      \* party whose commit digests compare greater
           nf,      \* nf[p]: number of fragments p's encoder cuts every message into (1 = unfragmented)
-          sec,     \* sec[p]: the secret p's user types into Authenticate
+          runs,    \* history of the SMP runs of the session: who started, the secrets supplied FOR THAT RUN, the events per side
           sent,    \* sent[p]: ids of the user messages p sent while encrypted (history)
           dlv,     \* dlv[p]: ids of the user messages delivered to p's user (history)
           smpev,   \* smpev[p]: SMP SecurityChange events seen by p with the secrets of the run (history)
           bud,     \* remaining budgets
           last     \* the last call and its observable result (what binding R compares)
-vars == <<cv, net, hi, nf, sec, sent, dlv, smpev, bud, last>>
+vars == <<cv, net, hi, nf, runs, sent, dlv, smpev, bud, last>>
 
 -----------------------------------------------------------------------------
 (* Logical messages: one record shape (TLC compares records of one shape only). *)
@@ -233,13 +237,14 @@ ProcessSMP(c, m) ==
          ELSE IF m.c # c.smpG \/ m.y # c.smpB THEN SmpRes(c, NoReply, "none", TRUE)   \* ZKP failed: error, nothing sent
          ELSE IF m.sec = c.ssec
               THEN SmpRes([c EXCEPT !.smp = 1, !.ssec = ""], Tlv("smp4", c.smpG, c.smpB, "", 0), "smpcomplete", FALSE)
-              ELSE SmpRes(c, Tlv("smp4", c.smpG, c.smpB, "", 0), "smpfailed", FALSE)   \* state 3 and secret kept
+              ELSE SmpRes(IF FixSMPReset THEN ResetSMP(c) ELSE c,                     \* as is: state 3 and secret kept
+                          Tlv("smp4", c.smpG, c.smpB, "", 0), "smpfailed", FALSE)
     [] m.tlv = "smp4" ->
          IF c.smp # 4 THEN SmpRes(ResetSMP(c), Abort, "none", FALSE)
          ELSE IF m.c # c.smpA \/ m.y # c.smpPB THEN SmpRes(c, Abort, "none", TRUE)    \* ZKP failed: abort sent, state 4 kept
          ELSE IF c.peerSec = c.ssec
               THEN SmpRes([c EXCEPT !.smp = 1, !.ssec = ""], NoReply, "smpcomplete", FALSE)
-              ELSE SmpRes(c, Abort, "smpfailed", FALSE)                                \* state 4 and secret kept
+              ELSE SmpRes(IF FixSMPReset THEN ResetSMP(c) ELSE c, Abort, "smpfailed", FALSE)   \* as is: state 4 and secret kept
 
 (* processData and the TLV loop of Receive.  bad: the authenticated part of the message was modified. *)
 RecvData(c, m, bad) ==
@@ -287,28 +292,51 @@ RecvWire(c, w) ==
 
 -----------------------------------------------------------------------------
 Call(act, p, arg, r) ==
-  [act |-> act, p |-> p, arg |-> arg,
+  [act |-> act, p |-> p, arg |-> arg, s |-> "",
    body |-> r.body, encf |-> r.encf, chg |-> r.chg, err |-> r.err,
    outs |-> [i \in 1..Len(r.outs) |-> IF r.outs[i].t = "data" THEN r.outs[i].tlv ELSE r.outs[i].t],
    enc |-> [q \in Parties |-> IF q = p THEN r.c.st = "enc" ELSE cv[q].st = "enc"]]
+
+Quiet == \A p \in Parties : net[p] = <<>>
+(* SMP runs (history).  A run starts with an Authenticate call that is not the answer to a saved SMP1.  It is `clean` when it
+   is started on a quiet, fault-free network, after a clean run that was answered or by the same user as the previous one
+   (a user who ignores the peer's question and starts a run of its own makes the peer abort: that is the protocol). *)
+Ended == (bud.end = 0 /\ AllowEnd) \/ bud.requery < MaxRequery
+Undisturbed == Quiet /\ bud.faults = MaxFaults /\ ~Ended
+RunStart(p, s) ==
+  LET n == Len(runs)
+      okprev == n = 0 \/ (runs[n].clean /\ (runs[n].rsec # "" \/ runs[n].ini = p))
+  IN Append(runs, [ini |-> p, isec |-> s, rsec |-> "", asked |-> 0, q0 |-> Undisturbed, clean |-> Undisturbed /\ okprev,
+                   ev |-> [x \in Parties |-> <<>>]])
+RunAnswer(p, s) ==
+  LET n == Len(runs) IN
+  IF n = 0 THEN runs
+  ELSE IF runs[n].ini = p \/ runs[n].rsec # "" \/ runs[n].asked = 0
+       THEN [runs EXCEPT ![n].clean = FALSE]   \* an answer that does not belong to this run (e.g. to the SMP1 of a superseded run)
+  ELSE [runs EXCEPT ![n].rsec = s]
+RunEvent(p, chg) ==
+  LET n == Len(runs) IN
+  IF n = 0 \/ chg \notin {"smpcomplete", "smpfailed", "smpneeded"} THEN runs
+  ELSE [runs EXCEPT ![n].ev[p] = Append(@, chg),
+                    ![n].asked = IF chg = "smpneeded" /\ p # runs[n].ini THEN @ + 1 ELSE @]
 
 Init ==
   /\ cv = [p \in Parties |-> NewConv(p)]
   /\ \E s \in Starts : net = [p \in Parties |-> IF Peer(p) \in s THEN <<Wire(1, 1, QueryMsg)>> ELSE <<>>]
   /\ hi \in Parties
   /\ nf \in [Parties -> FragChoices]
-  /\ \E s \in Secrets : sec = [p \in Parties |-> IF p = "a" THEN "s1" ELSE s]
+  /\ runs = <<>>
   /\ sent = [p \in Parties |-> <<>>]
   /\ dlv = [p \in Parties |-> <<>>]
   /\ smpev = [p \in Parties |-> <<>>]
   /\ bud = [data |-> [p \in Parties |-> MaxData], faults |-> MaxFaults, auth |-> MaxAuth, end |-> IF AllowEnd THEN 1 ELSE 0,
             requery |-> MaxRequery]
-  /\ last = [act |-> "init", p |-> "a", arg |-> 0, body |-> 0, encf |-> FALSE, chg |-> "none", err |-> FALSE,
+  /\ last = [act |-> "init", p |-> "a", arg |-> 0, s |-> "", body |-> 0, encf |-> FALSE, chg |-> "none", err |-> FALSE,
              outs |-> <<>>, enc |-> [q \in Parties |-> FALSE]]
 
-Apply(act, p, arg, r) ==
+Apply(act, p, arg, sc, r) ==
   /\ cv' = [cv EXCEPT ![p] = r.c]
-  /\ last' = Call(act, p, arg, r)
+  /\ last' = [Call(act, p, arg, r) EXCEPT !.s = sc]
   /\ dlv' = IF r.body > 0 THEN [dlv EXCEPT ![p] = Append(@, r.body)] ELSE dlv
   /\ smpev' = IF r.chg \in {"smpcomplete", "smpfailed", "smpneeded"} THEN [smpev EXCEPT ![p] = Append(@, r.chg)] ELSE smpev
 
@@ -316,9 +344,10 @@ Apply(act, p, arg, r) ==
 Deliver(p) ==
   /\ net[p] # <<>>
   /\ LET r == RecvWire(cv[p], Head(net[p])) IN
-     /\ Apply("deliver", p, 0, r)
+     /\ Apply("deliver", p, 0, "", r)
      /\ net' = [net EXCEPT ![p] = Tail(@), ![Peer(p)] = @ \o EncodeAll(nf[p], r.outs)]
-  /\ UNCHANGED <<hi, nf, sec, sent, bud>>
+  /\ runs' = RunEvent(p, RecvWire(cv[p], Head(net[p])).chg)
+  /\ UNCHANGED <<hi, nf, sent, bud>>
 
 (* p.Send(message) *)
 UserSend(p) ==
@@ -326,14 +355,14 @@ UserSend(p) ==
   /\ cv[p].st \in {"enc", "fin"}
   /\ LET id == (IF p = "a" THEN 0 ELSE 10) + (MaxData - bud.data[p]) + 1 IN
      IF cv[p].st = "fin"
-     THEN /\ Apply("send", p, id, Fail(cv[p]))          \* "cannot send message because secure conversation has finished"
+     THEN /\ Apply("send", p, id, "", Fail(cv[p]))          \* "cannot send message because secure conversation has finished"
           /\ UNCHANGED <<net, sent>>
      ELSE LET g == GenData(cv[p], id, "none", "", 0) IN
-          /\ Apply("send", p, id, Res(g.c, <<g.m>>, 0, FALSE, "none", FALSE))
+          /\ Apply("send", p, id, "", Res(g.c, <<g.m>>, 0, FALSE, "none", FALSE))
           /\ net' = [net EXCEPT ![Peer(p)] = @ \o Encode(nf[p], g.m)]
           /\ sent' = [sent EXCEPT ![p] = Append(@, id)]
   /\ bud' = [bud EXCEPT !.data[p] = @ - 1]
-  /\ UNCHANGED <<hi, nf, sec>>
+  /\ UNCHANGED <<hi, nf, runs>>
 
 (* p.End() *)
 UserEnd(p) ==
@@ -341,40 +370,43 @@ UserEnd(p) ==
   /\ cv[p].st \in {"enc", "fin"}
   /\ IF cv[p].st = "enc"
      THEN LET g == GenData(cv[p], 0, "disc", "", 0) IN
-          /\ Apply("end", p, 0, Res([g.c EXCEPT !.st = "plain"], <<g.m>>, 0, FALSE, "none", FALSE))
+          /\ Apply("end", p, 0, "", Res([g.c EXCEPT !.st = "plain"], <<g.m>>, 0, FALSE, "none", FALSE))
           /\ net' = [net EXCEPT ![Peer(p)] = @ \o Encode(nf[p], g.m)]
-     ELSE /\ Apply("end", p, 0, Nothing([cv[p] EXCEPT !.st = "plain"]))
+     ELSE /\ Apply("end", p, 0, "", Nothing([cv[p] EXCEPT !.st = "plain"]))
           /\ UNCHANGED net
   /\ bud' = [bud EXCEPT !.end = 0]
-  /\ UNCHANGED <<hi, nf, sec, sent>>
+  /\ UNCHANGED <<hi, nf, runs, sent>>
 
-(* p.Authenticate(question, sec[p]) *)
-UserAuth(p, q) ==
+(* p.Authenticate(question, secret): secret s is what p's user types FOR THIS RUN *)
+UserAuth(p, q, s) ==
   /\ cv[p].st = "enc"
   /\ LET c == cv[p] IN
      IF c.saved
      THEN \* answer the saved SMP1 (smp state is 1 whenever a TLV is saved)
-          LET c1 == [c EXCEPT !.ssec = sec[p], !.saved = FALSE]
+          LET c1 == [c EXCEPT !.ssec = s, !.saved = FALSE]
               r  == ProcessSMP(c1, [NoMsg EXCEPT !.t = "data", !.tlv = "smp1", !.q = c.savedQ, !.c = c.savedRun])
               g  == GenDataR(r.c, 0, r.reply)
           IN /\ q = 0
              /\ IF r.reply.tlv = "none"
-                THEN Apply("auth", p, q, Nothing(r.c)) /\ UNCHANGED net
-                ELSE /\ Apply("auth", p, q, Res(g.c, <<g.m>>, 0, FALSE, "none", FALSE))
+                THEN Apply("auth", p, q, s, Nothing(r.c)) /\ UNCHANGED net
+                ELSE /\ Apply("auth", p, q, s, Res(g.c, <<g.m>>, 0, FALSE, "none", FALSE))
                      /\ net' = [net EXCEPT ![Peer(p)] = @ \o Encode(nf[p], g.m)]
+             /\ runs' = RunAnswer(p, s)
              /\ UNCHANGED bud
      ELSE /\ bud.auth > 0
           /\ q \in Questions
-          /\ LET c1 == [c EXCEPT !.ssec = sec[p]]
+          /\ SeqSMP => Quiet
+          /\ LET c1 == [c EXCEPT !.ssec = s]
                  g0 == GenDataR(c1, 0, Abort)
                  c2 == IF c.smp # 1 THEN g0.c ELSE c1
                  a  == Fresh(c2)
                  g1 == GenDataR([c2 EXCEPT !.smpA = a, !.ser = c2.ser + 1], 0, Tlv(IF q = 1 THEN "smp1q" ELSE "smp1", a, 0, "", q))
                  ms == IF c.smp # 1 THEN <<g0.m, g1.m>> ELSE <<g1.m>>
-             IN /\ Apply("auth", p, q, Res([g1.c EXCEPT !.smp = 2, !.question = 0], ms, 0, FALSE, "none", FALSE))
+             IN /\ Apply("auth", p, q, s, Res([g1.c EXCEPT !.smp = 2, !.question = 0], ms, 0, FALSE, "none", FALSE))
                 /\ net' = [net EXCEPT ![Peer(p)] = @ \o EncodeAll(nf[p], ms)]
+          /\ runs' = RunStart(p, s)
           /\ bud' = [bud EXCEPT !.auth = @ - 1]
-  /\ UNCHANGED <<hi, nf, sec, sent>>
+  /\ UNCHANGED <<hi, nf, sent>>
 
 (* p's user sends the query message again while the conversation is encrypted (asks the peer to re-key).  The peer's
    Receive resets its key ids at once (reset()), before the new AKE has completed: outside the property's scope
@@ -384,9 +416,9 @@ UserQuery(p) ==
   /\ cv[p].st = "enc"
   /\ net' = [net EXCEPT ![Peer(p)] = Append(@, Wire(1, 1, QueryMsg))]
   /\ bud' = [bud EXCEPT !.requery = @ - 1]
-  /\ last' = [act |-> "query", p |-> p, arg |-> 0, body |-> 0, encf |-> FALSE, chg |-> "none", err |-> FALSE,
+  /\ last' = [act |-> "query", p |-> p, arg |-> 0, s |-> "", body |-> 0, encf |-> FALSE, chg |-> "none", err |-> FALSE,
               outs |-> <<>>, enc |-> [q \in Parties |-> cv[q].st = "enc"]]
-  /\ UNCHANGED <<cv, hi, nf, sec, sent, dlv, smpev>>
+  /\ UNCHANGED <<cv, hi, nf, runs, sent, dlv, smpev>>
 
 (* The network loses, repeats or modifies the message at the head of p's channel. *)
 Fault(kind, p, pos) ==
@@ -399,13 +431,13 @@ Fault(kind, p, pos) ==
                              /\ (Head(net[p]).m.t = "data" \/ (Head(net[p]).m.t = "commit" /\ Head(net[p]).n = 1))
                              /\ net' = [net EXCEPT ![p][1].bad = TRUE]
   /\ bud' = [bud EXCEPT !.faults = @ - 1]
-  /\ last' = [act |-> kind, p |-> p, arg |-> pos, body |-> 0, encf |-> FALSE, chg |-> "none", err |-> FALSE,
+  /\ last' = [act |-> kind, p |-> p, arg |-> pos, s |-> "", body |-> 0, encf |-> FALSE, chg |-> "none", err |-> FALSE,
               outs |-> <<>>, enc |-> [q \in Parties |-> cv[q].st = "enc"]]
-  /\ UNCHANGED <<cv, hi, nf, sec, sent, dlv, smpev>>
+  /\ UNCHANGED <<cv, hi, nf, runs, sent, dlv, smpev>>
 
 Next ==
   \/ \E p \in Parties : Deliver(p) \/ UserSend(p) \/ UserEnd(p) \/ UserQuery(p)
-  \/ \E p \in Parties, q \in {0, 1} : UserAuth(p, q)
+  \/ \E p \in Parties, q \in {0, 1}, s \in Secrets : UserAuth(p, q, s)
   \/ \E p \in Parties, k \in {"drop", "dup", "tamper"}, pos \in 0..8 : Fault(k, p, pos)
 
 Spec == Init /\ [][Next]_vars
@@ -416,12 +448,10 @@ FairSpec == Spec /\ \A p \in Parties : WF_vars(Deliver(p))
 (* Properties *)
 Enc(p) == cv[p].st = "enc"
 Started == \E p \in Parties : cv[p].auth # "none" \/ cv[p].st # "plain" \/ net[p] # <<>>
-Quiet == \A p \in Parties : net[p] = <<>>
 IsPrefix(s, t) == Len(s) <= Len(t) /\ \A i \in 1..Len(s) : s[i] = t[i]
 RECURSIVE IsSubSeq(_, _)
 IsSubSeq(s, t) == IF s = <<>> THEN TRUE ELSE IF t = <<>> THEN FALSE
                   ELSE IF Head(s) = Head(t) THEN IsSubSeq(Tail(s), Tail(t)) ELSE IsSubSeq(s, Tail(t))
-Ended == (bud.end = 0 /\ AllowEnd) \/ bud.requery < MaxRequery
 
 (* O1: from a one-sided or simultaneous start both sides reach the encrypted state (no faults, no End). *)
 BothEncrypted == <>[](Enc("a") /\ Enc("b"))
@@ -457,18 +487,29 @@ TamperRejected ==
        (BadAtHead(p) /\ last'.act = "deliver" /\ last'.p = p) =>
           (Hidden(cv'[p]) = Hidden(cv[p]) /\ dlv' = dlv /\ last'.err /\ last'.body = 0 /\ last'.outs = <<>>)]_vars
 
-(* O3: SMP.  Soundness in every run: Complete is only ever signalled when the two secrets of that run were equal. *)
-SMPSound == \A p \in Parties : \A i \in 1..Len(smpev[p]) : smpev[p][i] = "smpcomplete" => sec["a"] = sec["b"]
-(* One clean run (one start, no faults, no End), network quiet and the responder has answered:
-   Complete on both sides iff the secrets are equal, otherwise Failed on both sides and Complete on neither. *)
-Has(p, e) == \E i \in 1..Len(smpev[p]) : smpev[p][i] = e
-Answered == \E p \in Parties : Has(p, "smpneeded") /\ ~cv[p].saved
-SMPOutcome == (MaxAuth = 1 /\ Quiet /\ Answered /\ bud.faults = MaxFaults /\ ~Ended) =>
-   IF sec["a"] = sec["b"]
-   THEN \A p \in Parties : Has(p, "smpcomplete") /\ ~Has(p, "smpfailed")
-   ELSE \A p \in Parties : Has(p, "smpfailed") /\ ~Has(p, "smpcomplete")
-(* eventually, under fair delivery and a responder who answers *)
-SMPFinishes == [](Answered => <>(\A p \in Parties : Has(p, "smpcomplete") \/ Has(p, "smpfailed")))
+(* O3: SMP, over ALL runs of a session.  For a clean run k that is over (a later run was started on an undisturbed network, or
+   the network is quiet and undisturbed now): the responder was asked for its secret exactly once, and if it answered, the run
+   ended Complete on both sides iff the secrets supplied FOR RUN k are equal, otherwise Failed on both sides, Complete on neither. *)
+HasEv(k, p, e) == k <= Len(runs) /\ \E i \in 1..Len(runs[k].ev[p]) : runs[k].ev[p][i] = e
+RunOver(k) == IF k < Len(runs) THEN runs[k + 1].q0 ELSE Undisturbed
+RunVerdict(k) ==
+  /\ runs[k].asked = 1
+  /\ runs[k].rsec # "" =>
+       IF runs[k].isec = runs[k].rsec
+       THEN \A p \in Parties : HasEv(k, p, "smpcomplete") /\ ~HasEv(k, p, "smpfailed")
+       ELSE \A p \in Parties : HasEv(k, p, "smpfailed") /\ ~HasEv(k, p, "smpcomplete")
+RunOutcome == \A k \in 1..Len(runs) : (runs[k].clean /\ RunOver(k)) => RunVerdict(k)
+(* The code as it is violates RunOutcome in one situation (finding C47-S1): after a run that FAILED, its initiator is left in SMP
+   state 4 with its secret, so the first run the OTHER side starts afterwards is aborted unseen.  RunOutcomeKnown is RunOutcome
+   without that situation; it must hold for the code as it is, RunOutcome for the repaired code (FixSMPReset). *)
+StaleAfterFailure(k) == k > 1 /\ runs[k - 1].rsec # "" /\ runs[k - 1].rsec # runs[k - 1].isec /\ runs[k].ini # runs[k - 1].ini
+RunOutcomeKnown == \A k \in 1..Len(runs) : (runs[k].clean /\ RunOver(k) /\ ~StaleAfterFailure(k)) => RunVerdict(k)
+(* Complete is only ever signalled in a clean run when the two secrets of that run are equal *)
+SMPSound == \A k \in 1..Len(runs) : \A p \in Parties : (runs[k].clean /\ HasEv(k, p, "smpcomplete")) => runs[k].rsec = runs[k].isec
+(* non-vacuity helper: a second run after a successful first one exists in the state space (checked as an expected violation) *)
+NoSecondRunAfterSuccess == ~(Len(runs) >= 2 /\ runs[2].clean /\ HasEv(1, "a", "smpcomplete") /\ HasEv(1, "b", "smpcomplete") /\ runs[2].rsec # "" /\ Quiet)
+(* eventually, under fair delivery and a responder who answers (single-run configurations) *)
+SMPFinishes == []((Len(runs) = 1 /\ runs[1].rsec # "") => <>(\A p \in Parties : HasEv(1, p, "smpcomplete") \/ HasEv(1, p, "smpfailed")))
 
 (* whoever waits for a reveal-signature message has made its D-H key (serializeDHKey would dereference nil otherwise:
    the panic repaired by b85d235) *)
